@@ -82,12 +82,25 @@ class _D(ast.NodeTransformer):
                 body = [ast.If(test=c, body=body, orelse=[])]
             loop = ast.For(target=g.target, iter=g.iter, body=body, orelse=[], type_comment=None)
             return [_loc(loop, node), _loc(ast.Return(value=v.args[1]), node)]
+        # no default: exhaustion raises StopIteration
+        if isinstance(v, ast.Call) and isinstance(v.func, ast.Name) and v.func.id == "next" and len(v.args) == 1 and not v.keywords \
+                and isinstance(v.args[0], ast.GeneratorExp) and len(v.args[0].generators) == 1 and not v.args[0].generators[0].is_async:
+            g = v.args[0].generators[0]
+            body = [ast.Return(value=v.args[0].elt)]
+            for c in reversed(g.ifs):
+                body = [ast.If(test=c, body=body, orelse=[])]
+            loop = ast.For(target=g.target, iter=g.iter, body=body, orelse=[], type_comment=None)
+            return [_loc(loop, node), _loc(ast.Raise(exc=ast.Call(func=ast.Name(id="StopIteration", ctx=ast.Load()), args=[], keywords=[]), cause=None), node)]
         return None
 
     def visit_Return(self, node):
         nl = self._next_loop(node)
         if nl is not None:
-            return nl
+            out = []
+            for x in nl:
+                r = self.visit_For(x) if isinstance(x, ast.For) else x
+                out.extend(r if isinstance(r, list) else [r])
+            return out
         v = node.value
         if isinstance(v, ast.IfExp):
             a = self.visit(_loc(ast.Return(value=v.body), node))
@@ -174,6 +187,8 @@ class _D(ast.NodeTransformer):
         """Unroll `for a, b in ((x1, y1), (x2, y2), ...)` over a literal of pure elements (data-driven statement lists); fuse a
         loop over a generator expression with the generator: `for v in (E for w in IT if C): BODY` -> `for w in IT: if C: v = E; BODY`."""
         it = node.iter
+        if isinstance(it, ast.Name) and it.id in getattr(self, "gens", {}):
+            it = self.gens[it.id]   # a generator expression held in a local that is bound once and iterated once
         if isinstance(it, ast.GeneratorExp) and len(it.generators) == 1 and not node.orelse and not it.generators[0].is_async \
                 and isinstance(node.target, (ast.Name, ast.Tuple)):
             g = it.generators[0]
@@ -413,6 +428,14 @@ def desugar(fnode):
     ast.fix_missing_locations(f)
     d = _D()
     d.lits = literal_bindings(f)
+    # generator expressions bound once to a local that is read exactly once (as the iterable of a loop)
+    cnt = {}
+    for n in ast.walk(f):
+        if isinstance(n, ast.Name):
+            s_, l_ = cnt.get(n.id, (0, 0))
+            cnt[n.id] = (s_ + 1, l_) if isinstance(n.ctx, (ast.Store, ast.Del)) else (s_, l_ + 1)
+    d.gens = {n.targets[0].id: n.value for n in ast.walk(f) if isinstance(n, ast.Assign) and len(n.targets) == 1 and isinstance(n.targets[0], ast.Name)
+              and isinstance(n.value, ast.GeneratorExp) and cnt.get(n.targets[0].id) == (1, 1)}
     return d.visit(f)
 
 
